@@ -369,6 +369,7 @@ class SiteAudit:
     def __init__(self, loop):
         self.loop = loop
         self.sites: set = set()
+        self.callers: dict = {}          # site -> {`file:function` of the anchored frames above the innermost one}
         orig = loop._run_once
 
         def run_once():
@@ -392,6 +393,7 @@ class SiteAudit:
                 continue
             co = t.get_coro()
             site, n = None, 0
+            chain: list = []
             while co is not None and n < 64:
                 n += 1
                 code = getattr(co, 'cr_code', None) or getattr(co, 'gi_code', None) or getattr(co, 'ag_code', None)
@@ -401,6 +403,8 @@ class SiteAudit:
                              or getattr(nxt, 'ag_code', None)) if nxt is not None else None
                     awaited = ncode.co_name if ncode is not None else ('future' if nxt is not None else 'start')
                     site = f"{code.co_filename.replace(chr(92), '/').rsplit('/', 1)[-1]}:{code.co_name}>{awaited}"
+                    chain.append(site.split('>', 1)[0])
                 co = nxt
             if site is not None:
                 self.sites.add(site)
+                self.callers.setdefault(site, set()).update(chain[:-1])
